@@ -390,6 +390,10 @@ var parserCorners = []string{
 	"/{a:\tb}", "/{a:,}", "/{a:}", "/{a}", "/{}", "/{", "/}", "/{a", "/{a:", "/{a: ", "/{a: /", "/{a: /x", "/{a: //}", "/{a: / /}",
 	"/{a: /}/}", "/{a: /,/, b: /{/}", "/{a: b, }", "/{a: b,}", "/{,a: b}", "/{a: b,, c: d}", "/{{a}}", "/{a/b}", "/a b", "/ a", "/a ",
 	"a", " /a", "/a\n", "/\xff", "/a\xc3\xa9", "/{a: \xff}", "/{a: /\xff/}", "/{a: {b}}", "/{a: b:c}", "/:", "/,", "/a,b", "/a:b",
+	// percent escapes are ordinary identifier characters: no case folding, no decoding, whatever the hex digits spell
+	"/files/%7euser", "/%e4%bd%a0", "/%E4%BD%A0", "/{%41}", "/{%7e: %7e}", "/a%2fb", "/%", "/%zz", "/%4",
+	// a '?' only opens a segment; a '}' and a '{' are regex characters inside an expression
+	"/users/{id}?", "/a?/b", "/{tail: /[a-z]+}?/}", "/{a: /[{]/}", "/{a: /[}]+/}", "/{a: /x{/}/{b}", "/{a: i}", "/{unit: ms}", "/{a: i-1}", "/{a: /x/i}",
 	"/{a: b}{c: d}", "/{a: b, c: /x/, d: e}", "/{a: **}", "/{a: **, capture: 2}", "/?{a: b}?", "/??", "/a{b}c{d: e}f", "/{a:b}{c}/?{d:/e/}x",
 }
 
